@@ -356,8 +356,15 @@ func gen(g *scen.Gen) {
 						}
 					}
 				}
+				// the end flag (header byte 0) also takes the other values a receiver may treat alike: 1 -> 2, 1 -> 10, 0 -> 3
+				for _, v := range []int{0x03, 0x0b, 0x06} {
+					seed++
+					if !g.Emit(scen.Case{Seed: seed, Params: scen.Params(params{Shape: sh, F: fault{Kind: "xor", Dir: dir, I: i, Off: 0, Val: v}})}) {
+						return
+					}
+				}
 				for _, kind := range []string{"remove", "insert-empty-partial", "insert-empty-complete", "append-empty-partial", "append-empty-complete", "split", "merge",
-				"insert-junk-flag11", "insert-junk-flag255", "insert-junk-oversize", "insert-junk-negative"} {
+					"insert-junk-flag11", "insert-junk-flag255", "insert-junk-oversize", "insert-junk-negative"} {
 					if (kind == "append-empty-partial" || kind == "append-empty-complete") && i == len(bi.ClearLens[dir])-1 {
 						// after the last cleartext frame of a direction = before its first protected
 						// frame: the receiver meets it in the protected phase, which is C02's subject
